@@ -588,7 +588,8 @@ class Parser:
                 stmts.append(N("return", c.line, value=e))
                 continue
             if self.at("while") or self.at("loop"):
-                unsup(f"line {c.line}: `{c.text}` loops are outside the subset")
+                stmts.append(self.loop_stmt())
+                continue
             e = self.expr()
             if self.cur.kind == "punct" and self.cur.text in ASSIGN_OPS:
                 op = self.cur.text
@@ -608,6 +609,11 @@ class Parser:
                 continue
             unsup(f"line {self.cur.line}: expected `;` or end of block, found {self.cur.text!r}")
         return N("block", line, stmts=stmts, tail=tail)
+
+    def loop_stmt(self):
+        """hook: `while` / `loop` statements (outside the subset of this translator; see rs2lean_buf.py)"""
+        c = self.cur
+        unsup(f"line {c.line}: `{c.text}` loops are outside the subset")
 
     # -- expressions
     def expr(self, no_struct=False):
@@ -2542,15 +2548,11 @@ class Compiler:
         self_mode, params = Parser(item.params).params() if item.params else (None, [])
         g.self_mode = "ref" if self_mode == "val" else self_mode
         owner = item.owner
-        if "".join(x.text for x in item.ret) == "Box<dynIterator<Item=Line>+'_>":
-            ret = ("optiter",)         # the model hands the drained lines out as a list
-        else:
-            ret = Parser(item.ret).ty() if item.ret else "unit"
+        ret = self.ret_type(item)
         if ret == ("self",):
             ret = ("named", owner)
         g.ret = ret
-        base = camel(FN_RENAME.get(item.name, item.name))
-        g.lean_name = "Avt.GenT." + (base if owner in (None, "Terminal") else f"{owner}.{base}")
+        g.lean_name = self.lean_name_for(item)
         selfvar = OWNERS[owner] if g.self_mode else None
         ctx = Ctx(self.tr, g, selfvar, {}, [], Effects(), [0], True)
         if g.self_mode:
@@ -2596,6 +2598,17 @@ class Compiler:
         g.lines = self.R.render(ir, g.opt)
         return g
 
+    def ret_type(self, item):
+        """hook: Rust result type of a function item"""
+        if "".join(x.text for x in item.ret) == "Box<dynIterator<Item=Line>+'_>":
+            return ("optiter",)         # the model hands the drained lines out as a list
+        return Parser(item.ret).ty() if item.ret else "unit"
+
+    def lean_name_for(self, item):
+        """hook: fully qualified Lean name of the definition generated for a function item"""
+        base = camel(FN_RENAME.get(item.name, item.name))
+        return "Avt.GenT." + (base if item.owner in (None, "Terminal") else f"{item.owner}.{base}")
+
     def check_ret(self, v, ret, item):
         if ret == ("named", "Box"):
             return
@@ -2623,6 +2636,10 @@ FOREIGN_FIELDS = {"Buffer": {"cols": "usize", "rows": "usize"}}
 
 
 class Translator:
+    scanner_cls = Scanner          # hooks for rs2lean_buf.py
+    compiler_cls = None
+    require_execute = True
+
     def __init__(self, repo):
         self.repo = repo
         self.structs = {}
@@ -2634,17 +2651,19 @@ class Translator:
         self.failed = {}       # key -> reason
         self.in_progress = []
         self.emitted = []      # GenFn in dependency order
-        self.comp = Compiler(self)
+        self.comp = (self.compiler_cls or Compiler)(self)
         self._fields = {}
         self.decl_fns = {}
+        self.scanners = {}
         for rel, role in SOURCES:
             path = os.path.join(repo, rel)
             if not os.path.exists(path):
                 fail(rel, "file not found")
             with open(path, encoding="utf-8") as f:
                 src = f.read()
-            sc = Scanner(lex(src, rel), rel)
+            sc = self.scanner_cls(lex(src, rel), rel)
             sc.scan()
+            self.scanners[rel] = sc
             for k, v in sc.structs.items():
                 if k in self.structs and role == "gen":
                     fail(rel, f"struct {k} declared twice")
@@ -2663,7 +2682,7 @@ class Translator:
                     self.items[it.key] = it
                     self.order.append(it.key)
                 self.skipped += [(rel, q, why) for q, why in sc.skipped]
-        if ("Terminal", "execute") not in self.items:
+        if self.require_execute and ("Terminal", "execute") not in self.items:
             fail("src/terminal.rs", "Terminal::execute not found")
         for key in list(EXT_METHODS) + list(EXT_STATICS):
             if key not in EXT_SIGS:
